@@ -209,15 +209,23 @@ def units(tier):
         out = np.zeros((4, 2))
         c.ghost['out'] = out
 
+        seen = {}
+
         def func(*a, **kw):
+            seen['args'], seen['kwargs'] = a, dict(kw)
             return out
         c.ghost['func'] = func
-        return (np.zeros((4,)),), {'max_imfs': 2}
+        c.ghost['seen'] = seen
+        x = np.zeros((4,))
+        kw = {'max_imfs': 2, 'imf_opts': {'sd_thresh': 0.05}, 'envelope_opts': {'interp_method': 'pchip'}, 'extrema_opts': {'pad_width': 3}, 'sift_thresh': 1e-6}
+        c.ghost['given'] = ((x,), {k: (dict(v) if isinstance(v, dict) else v) for k, v in kw.items()})
+        return (x,), kw
 
     def call_sl(f, c, args, kwargs):
         f.__globals__['func'] = c.ghost['func']
         f.__globals__['sift_name'] = 'sift'
         f.__globals__['logging'] = LoggingShim(c.ghost['g'])
+        f.__globals__['logger'] = GhostLogger(c.ghost['g'])       # the module-level logger of emd/logger.py, in the same ghost state
         import numpy as _np
         f.__globals__['np'] = _np
         f.__globals__['isinstance'] = isinstance
@@ -227,6 +235,12 @@ def units(tier):
         g = c.ghost['g']
         c.oblige('post:returns-the-wrapped-result', z3.BoolVal(r is c.ghost['out'] or (isinstance(r, np.ndarray) and r.shape == c.ghost['out'].shape and np.array_equal(r, c.ghost['out']))), 'post')
         c.oblige('post:no-write-to-logger-state', z3.BoolVal(g['writes'] == []), 'post')
+        # whatever the logger state (console level, emd logger level, logging.disable): the wrapped sift receives exactly the caller's
+        # positional arguments and keyword arguments - option dictionaries included - so logging cannot change what is computed
+        seen, (ga, gk) = c.ghost['seen'], c.ghost['given']
+        c.oblige('post:wrapped-function-receives-exactly-the-callers-arguments', z3.BoolVal(len(seen.get('args', ())) == 1 and seen['args'][0] is ga[0] and seen.get('kwargs') == gk), 'post',
+                 note='received %r' % (seen.get('kwargs'),))
+        c.oblige('post:callers-option-dictionaries-not-modified', z3.BoolVal(kw == gk), 'post')
     U.append(Unit('sift_logger', 'emd/logger.py', 'sift_logger.add_logger.sift_logger', mk_sl, post_sl, module=EL, wrap_call=call_sl))
 
     # set_level / get_level / enable / disable
@@ -300,6 +314,12 @@ def _reset_never():
         lg.removeHandler(h)
     lg.addHandler(logging.NullHandler())
     logging.disable(logging.NOTSET)
+    # set_up (dictConfig) also sets logger levels: back to the import-time state, so that "never set up" means the same every time
+    for name, obj in list(logging.Logger.manager.loggerDict.items()):
+        if (name == 'emd' or name.startswith('emd.')) and isinstance(obj, logging.Logger):
+            obj.setLevel(logging.NOTSET)
+            obj.disabled = False
+            obj.propagate = True
 
 
 def _x():
@@ -307,20 +327,29 @@ def _x():
     return np.sin(2 * np.pi * 13 * t) + 0.5 * np.sin(2 * np.pi * 3 * t) + t
 
 
-def run_history(start, ops, level0='INFO', variant='sift'):
+# every call carries non-default option dictionaries: a result that depends on the logger state (options lost on the way) shows up
+CALL_KW = {'max_imfs': 2, 'imf_opts': {'sd_thresh': 0.05}, 'envelope_opts': {'interp_method': 'mono_pchip'}, 'extrema_opts': {'pad_width': 3}}
+
+
+def run_history(start, ops, level0='INFO', variant='sift', log_file=False):
     """returns list of (op, observed level, expected level, error) and the outputs of the successful calls"""
     import contextlib
     import io
     import logging
+    import tempfile
     import emd
     _reset_never()
     model = None            # None = never set up
     buf = io.StringIO()
     outs = []
     trace = []
+    td = tempfile.TemporaryDirectory() if log_file else None
     with contextlib.redirect_stdout(buf):
         if start == 'set_up':
-            emd.logger.set_up(level=level0)
+            if log_file:
+                emd.logger.set_up(level=level0, log_file=os.path.join(td.name, 'emd.log'))
+            else:
+                emd.logger.set_up(level=level0)
             model = LEVELS[level0]
         for op in ops:
             err = None
@@ -341,7 +370,7 @@ def run_history(start, ops, level0='INFO', variant='sift'):
                 if op[2]:
                     x = np.zeros((16, 2, 3))      # rejected by the input checks: the call raises after the override was applied
                 try:
-                    kw = {'max_imfs': 2}
+                    kw = dict(CALL_KW, imf_opts=dict(CALL_KW['imf_opts']), envelope_opts=dict(CALL_KW['envelope_opts']), extrema_opts=dict(CALL_KW['extrema_opts']))
                     if op[1] is not None or len(op) > 3:
                         kw['verbose'] = op[1]
                     out = f(x, **kw)
@@ -355,20 +384,30 @@ def run_history(start, ops, level0='INFO', variant='sift'):
                     err = 'call raised %s: %r' % (type(ex).__name__, ex)
             obs = emd.logger.get_level()
             trace.append((op, obs, model, err))
+    if td is not None:
+        for h in list(logging.getLogger('emd').handlers):
+            h.close()
     _reset_never()
+    if td is not None:
+        td.cleanup()
     return trace, outs
 
 
 def replay(w):
     if w.get('kind') != 'history':
         return False, 'unknown witness kind'
-    trace, outs = run_history(w['start'], [tuple(o) for o in w['ops']], w.get('level0', 'INFO'), w.get('variant', 'sift'))
+    trace, outs = run_history(w['start'], [tuple(o) for o in w['ops']], w.get('level0', 'INFO'), w.get('variant', 'sift'), log_file=bool(w.get('log_file')))
     for op, obs, model, err in trace:
         if err:
             return True, 'start=%s: after %s: %s' % (w['start'], list(op), err)
         if obs != model:
             return True, 'start=%s history %s: console level is %s after %s, expected %s (the last level set explicitly)' % (w['start'], w['ops'], obs, list(op), model)
     ref = w.get('ref')
+    if ref is None and w.get('compare_with_never_set_up') and w.get('variant', 'sift') == 'sift':
+        import contextlib, io, emd
+        _reset_never()
+        with contextlib.redirect_stdout(io.StringIO()):
+            ref = emd.sift.sift(_x(), **CALL_KW)
     if ref is not None and outs:
         if not all(np.array_equal(o, np.asarray(ref)) for o in outs):
             return True, 'start=%s history %s: numerical result differs from the result obtained with logging never set up' % (w['start'], w['ops'])
@@ -380,7 +419,7 @@ def refute(tier, seed, emit):
     _reset_never()
     import contextlib, io
     with contextlib.redirect_stdout(io.StringIO()):
-        ref = emd.sift.sift(_x(), max_imfs=2)
+        ref = emd.sift.sift(_x(), **CALL_KW)
     depth = 2 if tier == 'quick' else 4
     ops = [('set_level', 'DEBUG'), ('set_level', 'WARNING'), ('disable',), ('enable',), ('set_up', 'INFO'),
            ('call', None, False), ('call', 'DEBUG', False), ('call', 'CRITICAL', False), ('call', 'WARNING', True), ('call', None, True)]
@@ -399,6 +438,7 @@ def refute(tier, seed, emit):
                         cl = 'results-independent-of-logger-state'
                     w2 = dict(w)
                     w2.pop('ref')
+                    w2['compare_with_never_set_up'] = True      # (the replay recomputes the reference instead of carrying the array)
                     emit.violation(cl, w2, msg)
             if emit.full:
                 return
@@ -413,15 +453,9 @@ def refute(tier, seed, emit):
                 ok, msg = replay(w)
                 if ok:
                     emit.violation('other-variants:' + variant, w, msg)
-    with tempfile.TemporaryDirectory() as td:
-        with contextlib.redirect_stdout(io.StringIO()):
-            emd.logger.set_up(level='DEBUG', log_file=os.path.join(td, 'emd.log'))
-            out = emd.sift.sift(_x(), max_imfs=2, verbose='INFO')
-            lvl = emd.logger.get_level()
-        import logging
-        for h in list(logging.getLogger('emd').handlers):
-            h.close()
-        _reset_never()
-        emit.case(('file',), contract='wrap_verbose')
-        if not np.array_equal(out, ref) or lvl != 10:
-            emit.violation('logging-to-file', {'kind': 'history', 'start': 'set_up', 'ops': [['call', 'INFO', False]], 'level0': 'DEBUG'}, 'with a log file: level %s, result equal %s' % (lvl, np.array_equal(out, ref)))
+    for lvl0 in ('DEBUG', 'WARNING'):
+        emit.case(('file', lvl0), contract='wrap_verbose')
+        w = {'kind': 'history', 'start': 'set_up', 'ops': [['call', 'INFO', False], ['call', None, False]], 'level0': lvl0, 'compare_with_never_set_up': True, 'log_file': True}
+        ok, msg = replay(w)
+        if ok:
+            emit.violation('logging-to-file', w, msg)
